@@ -51,6 +51,7 @@ type irRun struct {
 	idxPark  map[int]*sim.Parked // writer (or 100 = batch) -> its goroutine parked inside UpdateIndex
 	gid      map[int]int64       // writer -> goroutine running its call
 	waiting  map[int]bool        // writer (or 100) released towards UpdateIndex while the index lock was held
+	skipped  map[int]bool        // writer (or 100) whose index update returned without waiting for the holder (not this tree's behaviour)
 	known    map[int]bool        // park ids at index.read already attributed
 }
 
@@ -219,7 +220,7 @@ func (r *irRun) setup(tag string) error {
 	}
 	r.returned, r.retErr, r.started = map[int]bool{}, map[int]error{}, map[int]bool{}
 	r.idxPark, r.known = map[int]*sim.Parked{}, map[int]bool{}
-	r.gid, r.waiting = map[int]int64{}, map[int]bool{}
+	r.gid, r.waiting, r.skipped = map[int]int64{}, map[int]bool{}, map[int]bool{}
 	return nil
 }
 
@@ -326,11 +327,17 @@ func (r *irRun) apply(st Step) error {
 		h.Release(p)
 		r.waiting[g] = true
 		// it must now be waiting for the index lock: not parked anywhere
-		time.Sleep(30 * time.Millisecond)
-		if r.writerAt("write.indexed", g, time.Millisecond) != nil {
+		if r.writerAt("write.indexed", g, 150*time.Millisecond) != nil {
+			// not a step of this tree: the update did not wait. The rest of the behaviour is still forced, the
+			// update of this writer counting as done, so that what is observed at rest does not depend on chance
 			r.res.note("%s step %d: the index update of writer %d came back while another update held the index", r.bid, r.step, g)
+			r.skipped[g] = true
+			r.res.Stats["drift"]++
 		}
 	case "WIndexRead":
+		if r.skipped[g] {
+			return nil
+		}
 		if !r.waiting[g] {
 			p := r.writerAt("write.persisted", g, d)
 			if p == nil {
@@ -346,6 +353,9 @@ func (r *irRun) apply(st Step) error {
 		r.known[ip.ID] = true
 		r.idxPark[g] = ip
 	case "WIndexWrite":
+		if r.skipped[g] {
+			return nil
+		}
 		ip := r.idxPark[g]
 		if ip == nil {
 			return fmt.Errorf("writer %d has not read the log", g)
@@ -406,11 +416,15 @@ func (r *irRun) apply(st Step) error {
 		}
 		h.Release(p)
 		r.waiting[100] = true
-		time.Sleep(30 * time.Millisecond)
-		if parkedFor("join.indexed", r.mine, time.Millisecond) != nil {
+		if parkedFor("join.indexed", r.mine, 150*time.Millisecond) != nil {
 			r.res.note("%s step %d: the index update of the batch came back while another update held the index", r.bid, r.step)
+			r.skipped[100] = true
+			r.res.Stats["drift"]++
 		}
 	case "BIndexRead":
+		if r.skipped[100] {
+			return nil
+		}
 		if !r.waiting[100] {
 			p := parkedFor("join.log", r.mine, d)
 			if p == nil {
@@ -425,6 +439,9 @@ func (r *irRun) apply(st Step) error {
 		r.known[ip.ID] = true
 		r.idxPark[100] = ip
 	case "BIndexWrite":
+		if r.skipped[100] {
+			return nil
+		}
 		ip := r.idxPark[100]
 		if ip == nil {
 			return fmt.Errorf("batch has not read the log")
